@@ -1,6 +1,9 @@
 (* Concrete stores used by the Examples of Props/C06.v (non-vacuity witnesses): a cluster that is in the middle of a
-   scale-out migration (both parts of chunk 0 migrate to chunk 1), before and after one and two failovers. *)
-From UM Require Import Base.BytesDef Model.Ranges Model.Broker.
+   scale-out migration (both parts of chunk 0 migrate to chunk 1), before and after one and two failovers; plus boolean
+   checkers (with soundness lemmas) for the hypotheses mig_wf / epochs_le / first_at so that the Examples can be
+   discharged by computation on these concrete stores. *)
+From UM Require Import Base.BytesDef Model.Ranges Model.Broker Proofs.BrokerBase Proofs.BrokerFailoverStruct
+  Proofs.BrokerFailoverTakeover Proofs.BrokerFailoverStore.
 
 Definition ex_ops : list op :=
   [OAddProxy 1 (Some 10) None; OAddProxy 2 (Some 11) None; OAddProxy 3 (Some 10) None; OAddProxy 4 (Some 11) None;
@@ -17,3 +20,112 @@ Definition ex_store2 : store := run ex_store1 [OReplaceFailed 4 (Some 6)].
 
 Definition ex_cluster (s : store) : cluster :=
   match alookup 1 (st_clusters s) with Some cl => cl | None => mkCluster 0 [] 0 end.
+
+(* ---------- boolean checkers ---------- *)
+Fixpoint rl_eqb (a b : rangelist) : bool :=
+  match a, b with
+  | [], [] => true
+  | x :: a', y :: b' => N.eqb (fst x) (fst y) && N.eqb (snd x) (snd y) && rl_eqb a' b'
+  | _, _ => false
+  end.
+
+Lemma rl_eqb_eq a b : rl_eqb a b = true -> a = b.
+Proof.
+  revert b. induction a as [|[x1 x2] a IH]; intros [|[y1 y2] b]; cbn [rl_eqb fst snd]; try discriminate; [reflexivity|].
+  intros H. apply andb_true_iff in H. destruct H as [H H3]. apply andb_true_iff in H. destruct H as [H1 H2].
+  apply N.eqb_eq in H1. apply N.eqb_eq in H2. subst. rewrite (IH b H3). reflexivity.
+Qed.
+
+Lemma meta_eqb_eq a b : meta_eqb a b = true -> a = b.
+Proof.
+  destruct a as [e si sp di dp], b as [e' si' sp' di' dp']. unfold meta_eqb. cbn.
+  intros H. repeat (apply andb_true_iff in H; destruct H as [H ?]).
+  apply N.eqb_eq in H. apply Nat.eqb_eq in H3. apply Bool.eqb_prop in H2. apply Nat.eqb_eq in H1. apply Bool.eqb_prop in H0.
+  subst. reflexivity.
+Qed.
+
+Definition entry_ok (chunks : list chunk) (j : nat) (p : bool) (m : mig_store) : bool :=
+  pos_eqb (if ms_out m then src_pos m else dst_pos m) (j, p) &&
+  match nth_error chunks (fst (if ms_out m then dst_pos m else src_pos m)) with
+  | Some ct => existsb (fun m2 => Bool.eqb (ms_out m2) (negb (ms_out m)) && rl_eqb (ms_ranges m2) (ms_ranges m)
+                                  && meta_eqb (ms_meta m2) (ms_meta m))
+                       (ck_mig ct (snd (if ms_out m then dst_pos m else src_pos m)))
+  | None => false
+  end.
+
+Fixpoint wf_from (chunks : list chunk) (j : nat) (rest : list chunk) : bool :=
+  match rest with
+  | [] => true
+  | c :: r => forallb (entry_ok chunks j false) (ck_mig c false) && forallb (entry_ok chunks j true) (ck_mig c true)
+              && wf_from chunks (S j) r
+  end.
+
+Definition mig_wf_b (chunks : list chunk) : bool := wf_from chunks 0 chunks.
+
+Lemma wf_from_sound chunks : forall rest j, wf_from chunks j rest = true ->
+  forall k c p m, nth_error rest k = Some c -> In m (ck_mig c p) -> entry_ok chunks (j + k) p m = true.
+Proof.
+  induction rest as [|c0 rest IH]; intros j H k c p m Hk Hm.
+  - destruct k; discriminate.
+  - cbn [wf_from] in H. apply andb_true_iff in H. destruct H as [H H3]. apply andb_true_iff in H. destruct H as [H1 H2].
+    destruct k as [|k].
+    + cbn in Hk. inversion Hk; subst c0. rewrite Nat.add_0_r.
+      destruct p; [apply (proj1 (forallb_forall _ _) H2 m Hm)|apply (proj1 (forallb_forall _ _) H1 m Hm)].
+    + cbn in Hk. replace (j + S k)%nat with (S j + k)%nat by lia. apply (IH (S j) H3 k c p m Hk Hm).
+Qed.
+
+Lemma mig_wf_b_sound chunks : mig_wf_b chunks = true -> mig_wf chunks.
+Proof.
+  intros H j cj p m Hj Hm.
+  pose proof (wf_from_sound chunks chunks 0 H j cj p m Hj Hm) as Hok. cbn [Nat.add] in Hok.
+  unfold entry_ok in Hok. apply andb_true_iff in Hok. destruct Hok as [H1 H2].
+  apply pos_eqb_eq in H1. split; [exact H1|].
+  destruct (nth_error chunks (fst (if ms_out m then dst_pos m else src_pos m))) as [ct|]; [|discriminate].
+  apply existsb_exists in H2. destruct H2 as (m2 & Hin & Hc).
+  apply andb_true_iff in Hc. destruct Hc as [Hc H5]. apply andb_true_iff in Hc. destruct Hc as [H3 H4].
+  exists ct, m2. split; [reflexivity|]. split; [exact Hin|].
+  split; [apply Bool.eqb_prop; exact H3|]. split; [apply rl_eqb_eq; exact H4|apply meta_eqb_eq; exact H5].
+Qed.
+
+Definition epochs_le_b (chunks : list chunk) (E : N) : bool :=
+  forallb (fun c => forallb (fun m => N.leb (mm_epoch (ms_meta m)) E) (ck_mig0 c ++ ck_mig1 c)) chunks.
+
+Lemma epochs_le_b_sound chunks E : epochs_le_b chunks E = true -> epochs_le chunks E.
+Proof.
+  intros H j cj p m Hj Hm. unfold epochs_le_b in H.
+  pose proof (proj1 (forallb_forall _ _) H cj (nth_error_In _ _ Hj)) as Hc.
+  assert (Hin : In m (ck_mig0 cj ++ ck_mig1 cj)) by (apply in_app_iff; destruct p; cbn [ck_mig] in Hm; auto).
+  pose proof (proj1 (forallb_forall _ _) Hc m Hin) as Hle. apply N.leb_le in Hle. exact Hle.
+Qed.
+
+(* a one-cluster store satisfies store_epochs_le when its only cluster does *)
+Lemma store_epochs_le_single s n cl :
+  st_clusters s = [(n, cl)] -> epochs_le_b (cl_chunks cl) (st_epoch s) = true -> store_epochs_le s.
+Proof.
+  intros Hc Hb n0 cl0 Hl. rewrite Hc in Hl. cbn [alookup] in Hl.
+  destruct (N.eqb n0 n); [|discriminate]. inversion Hl; subst cl0. apply epochs_le_b_sound. exact Hb.
+Qed.
+
+Fixpoint first_at_b (chunks : list chunk) (f : N) (i : nat) (pos : bool) : bool :=
+  match chunks, i with
+  | c :: _, O => N.eqb (ck_proxy c pos) f && (negb pos || negb (N.eqb (ck_proxy0 c) f))
+  | c :: rest, S i' => negb (N.eqb (ck_proxy0 c) f) && negb (N.eqb (ck_proxy1 c) f) && first_at_b rest f i' pos
+  | [], _ => false
+  end.
+
+Lemma first_at_b_sound : forall chunks f i pos, first_at_b chunks f i pos = true ->
+  exists c, first_at chunks f i c pos.
+Proof.
+  induction chunks as [|c0 rest IH]; intros f i pos H; [destruct i; discriminate|].
+  destruct i as [|i]; cbn [first_at_b] in H.
+  - apply andb_true_iff in H. destruct H as [H1 H2]. apply N.eqb_eq in H1.
+    exists c0. split; [reflexivity|]. split; [exact H1|]. split; [|intros j cj Hj; lia].
+    intros ->. cbn in H2. apply negb_true_iff in H2. apply N.eqb_neq. exact H2.
+  - apply andb_true_iff in H. destruct H as [H H3]. apply andb_true_iff in H. destruct H as [H1 H2].
+    apply negb_true_iff in H1. apply negb_true_iff in H2. apply N.eqb_neq in H1. apply N.eqb_neq in H2.
+    destruct (IH f i pos H3) as (c & Hn & Hp & Hp0 & Hb).
+    exists c. split; [exact Hn|]. split; [exact Hp|]. split; [exact Hp0|].
+    intros [|j] cj Hj Hcj.
+    + cbn in Hcj. inversion Hcj; subst. auto.
+    + apply (Hb j cj); [lia|exact Hcj].
+Qed.
